@@ -45,6 +45,8 @@ func (r *BasicPublicTokenRequest) Marshal() []byte {
 }
 
 func (r *BasicPublicTokenRequest) Unmarshal(data []byte) bool {
+	// Forget the cached encoding of any value held before
+	r.raw = nil
 	s := cryptobyte.String(data)
 
 	var tokenType uint16
